@@ -10,18 +10,12 @@ cd "$here"
 case "$out" in /*) ;; *) out="$here/$out" ;; esac
 mkdir -p work/bin work/instr
 go build -o work/bin/instr ./instr
-work/bin/instr -q -out work/instr/c07 \
+# VSCHED_REPO: instrument another checkout (a scratch worktree with a candidate fix or a
+# deliberate property-breaking change) while still building against /repo through the overlay.
+work/bin/instr -q -out work/instr/c07 -repo "${VSCHED_REPO:-/repo}" -overlay-root /repo \
   -pkgs ./storage/...,./bql/...,./triple/...,./io/... \
   -exclude github.com/google/badwolf/triple/node,github.com/google/badwolf/bql/planner/tracer
 ov=work/instr/c07/overlay.json
-if [ -n "$VSCHED_EXTRA_OVERLAY" ]; then
-  # demonstrations: a modified /repo file (itself instrumented from a scratch copy) replaces the generated one
-  python3 - "$ov" "$VSCHED_EXTRA_OVERLAY" <<'PY'
-import json,sys
-a=json.load(open(sys.argv[1])); b=json.load(open(sys.argv[2]))
-a["Replace"].update(b["Replace"]); json.dump(a,open(sys.argv[1],"w"),indent=1)
-PY
-fi
 go build -overlay "$ov" -o "$out" ./cmd/c07 &
 p1=$!
 CGO_ENABLED=1 go build -race -overlay "$ov" -o "$out-race" ./cmd/c07 &
